@@ -1,7 +1,7 @@
 (* Props/C02.v — property theorem only.  compute_initial_info (split at every B) reports the
    paragraphs of P1 with their unit ranges, the paragraph levels of P2/P3 (or the forced level), and
    the class vector in which exactly the FSIs that X5c resolves are rewritten to LRI/RLI. *)
-From BidiVerif Require Import Base ConstsGen TablesGen ModelText ModelResolve ModelLine Spec Obs Judge Stmts Stmts2.
+From BidiVerif Require Import Base ConstsGen TablesGen ModelText RefDs ModelResolve ModelLine Spec Obs Judge Stmts Stmts2.
 From BidiVerif.Proofs Require Import InitialInfo.
 
 Theorem C02_paragraphs_levels_fsi : C02_statement.
@@ -15,11 +15,11 @@ Proof. exact C02_proof. Qed.
 Example C02_two_paragraphs_unresolved_and_nested_fsi :
   let text := [0x2068; 0x20; 0x0A; 0x5D1; 0x2066; 0x2068; 0x2066; 0x62; 0x2069; 0x5D0; 0x2069; 0x2069; 0x31]%N in
   let chars := view_of U8 text in
-  text_view U8 text chars /\ fsi_proviso U8 hardcoded_ds chars /\
-  map (fun ch => ds_class hardcoded_ds (fst ch)) chars
+  text_view U8 text chars /\ fsi_proviso U8 ucd16_ds chars /\
+  map (fun ch => ds_class ucd16_ds (fst ch)) chars
     = [FSI; WS; B; R; LRI; FSI; LRI; L; PDI; R; PDI; PDI; EN] /\
   exists ii,
-    compute_initial_info U8 hardcoded_ds text None true = Ok ii /\
+    compute_initial_info U8 ucd16_ds text None true = Ok ii /\
     in_classes ii = [FSI; FSI; FSI; WS; B;
                      R; R; LRI; LRI; LRI; RLI; RLI; RLI; LRI; LRI; LRI; L; PDI; PDI; PDI; R; R;
                      PDI; PDI; PDI; PDI; PDI; PDI; EN] /\
